@@ -130,8 +130,13 @@ fn relations(p: &Prod, c: &Case, obs: &mut Obs) -> PResult {
         }
     }
     // (ii) nesting in the level, for all three kinds
-    let (l1, l2) = (LEVEL_GRID[c.i1], LEVEL_GRID[c.i2]);
-    if l2 - l1 >= 0.01 {
+    // two pairs: two grid levels at least 0.01 apart, and a grid level against a level a quarter of a percent
+    // above it (a special case or table entry at a round level must still sit between its neighbours)
+    let near = (LEVEL_GRID[c.i2], (LEVEL_GRID[c.i2] + 0.0025).min(0.9999));
+    for (l1, l2) in [(LEVEL_GRID[c.i1], LEVEL_GRID[c.i2]), near, (LEVEL_GRID[c.i1] - 0.0005, LEVEL_GRID[c.i1])] {
+        if !(l1 >= 0.001 && l2 <= 0.9999 && l2 - l1 >= 0.0004 && (l2 - l1 >= 0.01 || l2 - l1 <= 0.003)) {
+            continue;
+        }
         for kind in 0u8..3 {
             let (c1, c2) = (Conf::new(kind, l1), Conf::new(kind, l2));
             let (r1, r2) = (ev(&c1)?, ev(&c2)?);
@@ -279,7 +284,7 @@ fn float_producers<F: Fl>(c: &Case, obs: &mut Obs) -> PResult {
     if rr.conditioned::<F>(0) {
         let dof = (rr.n - 1) as f64;
         // one-sided levels below 1/2 use the critical value of 1 - L with the opposite sign
-        let lmax = [c.l_one.0, LEVEL_GRID[c.i1], LEVEL_GRID[c.i2]].iter().fold(0.5f64, |m, &l| m.max(l).max(1.0 - l));
+        let lmax = [c.l_one.0, LEVEL_GRID[c.i1], LEVEL_GRID[c.i2], (LEVEL_GRID[c.i2] + 0.0025).min(0.9999), LEVEL_GRID[c.i1] - 0.0005].iter().fold(0.5f64, |m, &l| m.max(l).max(1.0 - l));
         let cmax = crit(dof, &Conf::new(0, lmax)).c.abs() * 1.001 + 1e-9;
         if rr.mean - cmax * rr.se > rr.mean * 1e-6 {
             let st = <Harmonic<F> as StatisticsOps<F>>::from_iter(&pz).unwrap();
@@ -450,7 +455,7 @@ pub fn strategy(max_n: usize) -> impl Strategy<Value = Case> {
 
 pub fn run(run: &mut Run) {
     run.technique = "proptest random search with shrinking; relational oracle over pairs of calls on the same input: one-sided(L) vs two-sided(2L-1), nesting in the level, containment of the point estimate, kind of the result".into();
-    run.rule = "for each generated input (two samples, a positive sample, counts (n,k), quantile q; f32/f64) every producer (arithmetic, geometric, harmonic, paired, unpaired, Wilson, Wald, quantile ranks and elements) is evaluated at a one-sided level L in (1/2,1), at two-sided 2L-1, and at a pair of grid levels >= 0.01 apart for all three kinds; 12 % of the inputs have constant samples, for which (as for any sample outside the conditioning domain) the kind clause alone is checked; non-trivial = Ok results on both sides of a relation; distinct by input hash and levels".into();
+    run.rule = "for each generated input (two samples, a positive sample, counts (n,k), quantile q; f32/f64) every producer (arithmetic, geometric, harmonic, paired, unpaired, Wilson, Wald, quantile ranks and elements) is evaluated at a one-sided level L in (1/2,1), at two-sided 2L-1, at a pair of grid levels >= 0.01 apart and at two pairs of neighbouring levels (a grid level and the level 0.0025 above it, a grid level and the level 0.0005 below it) for all three kinds; 12 % of the inputs have constant samples, for which (as for any sample outside the conditioning domain) the kind clause alone is checked; non-trivial = Ok results on both sides of a relation; distinct by input hash and levels".into();
     crate::meanref::selftest_into(run);
     let (cases, shards, max_n) = match run.tier {
         crate::engine::Tier::Quick => (24_000u32, 32usize, 400usize),
